@@ -247,7 +247,7 @@ def run(ctx: Ctx) -> None:
     # the first copy got stuck): "bins only get fuller" memos break here
     sp = sp + [(3, 3, 6, 6)]
     if not ctx.quick:
-        sp = sp + [(4, 3, 6, 6), (3, 4, 6, 6)]
+        sp = sp + [(4, 3, 6, 6)]
     r = C.explore_trees(ctx, sp)
     ctx.add("states", r["nodes"])
     ctx.add("transitions", r["nodes"])
